@@ -425,7 +425,8 @@ def hexseg_case(draw, tier):
             a = draw(st.integers(0, nseg - 2))
             dl = list(range(a, draw(st.integers(a + 1, min(nseg - 1, a + 12))) + 1))
     else:
-        dl = [1, nseg + 3]
+        # entries that name no segment under any reading (beyond the last ring, or below -nseg): they drop nothing
+        dl = draw(st.sampled_from([[1, nseg + 3], [1, -nseg - 3], [0, -(nseg + 1), nseg], [nseg + 40, -nseg - 40, 2]]))
     return {"rings": rings, "radius": draw(gen.finite(5.0, 12.0)),
             "gap": draw(st.sampled_from([0, 0.5, 1, 2, 2.75, 4])) if draw(st.booleans()) else draw(gen.finite(0.0, 4.0)),
             "rotate": draw(st.booleans()), "antialias": draw(st.booleans()), "pad": draw(st.integers(0, 4)),
@@ -441,7 +442,7 @@ def hex_segments(case, ctx):
     ndrop = len([d for d in set(case["drop"]) if 0 <= d < nseg])
     ctx.tag(f"rings:{k}", "rotate" if case["rotate"] else None, "antialias" if case["antialias"] else "binary",
             f"pad:{case['pad']}", "gap0" if gap == 0 else "gap>0", "flatten" if case["flatten"] else None,
-            f"dropped:{ndrop}")
+            f"dropped:{ndrop}", "drop_has_entries_below_-nseg" if any(d < -nseg for d in case["drop"]) else None)
     ctx.nontrivial_if(k >= 1 and ndrop < nseg)
     if ndrop == nseg:
         raise Skip("all_dropped")
